@@ -62,6 +62,31 @@ const ABC: [&str; 3] = ["a", "b", "c"];
 #[test] fn nb_peg_repnullable() { sweep("nb_peg_repnullable", &ABC, 7, |s| cmp::<GRepNullable<'_>, XRepNullable>(s)); }
 #[test] fn nb_peg_skippush() { sweep("nb_peg_skippush", &ABC, 7, |s| cmp::<GSkipPush<'_>, XSkipPush>(s)); }
 #[test] fn nb_peg_repasskip() { sweep("nb_peg_repasskip", &AB_, 8, |s| cmp::<GRepAsSkip, XRepAsSkip>(s)); }
+/// the same comparison on every sub-range of every string, given as a Span sub-input (the bytes beyond the end must not matter)
+fn sweep_sub<F: Fn(&str, usize, usize) -> Result<Option<usize>, &'static str>>(name: &str, alpha: &[&str], max: usize, f: F) -> bool {
+    let mut cases = 0u64;
+    for s in strings(alpha, max) {
+        for a in 0..=s.len() { for b in a..=s.len() {
+            if !(s.is_char_boundary(a) && s.is_char_boundary(b)) { continue; }
+            cases += 1;
+            match std::panic::catch_unwind(std::panic::AssertUnwindSafe(|| f(&s, a, b))) {
+                Ok(Ok(_)) => {}
+                Ok(Err(why)) => { println!("NB-RESULT name={} status=fail cases={} key=input={:?},span={}..{} detail={}", name, cases, s, a, b, why); return false; }
+                Err(_) => { println!("NB-RESULT name={} status=fail cases={} key=input={:?},span={}..{} detail=C09: panic", name, cases, s, a, b); return false; }
+            }
+        } }
+    }
+    println!("NB-RESULT name={} status=ok cases={} key=- detail=all strings of <= {} chars over {:?} x all sub-ranges given as Span sub-inputs", name, cases, max, alpha);
+    true
+}
+fn at<'i, G: TypedNode<'i, Rule>, X: RN>(s: &'i str, a: usize, b: usize) -> Result<Option<usize>, &'static str> {
+    cmp_at::<G, X, _>(Span::new(s, a, b).unwrap().as_input(), s, a, b)
+}
+#[test] fn nb_peg_sub() {
+    let ok = sweep_sub("nb_peg_sub", &AB_, 6, |s, a, b| at::<GSeq3, XSeq3>(s, a, b).and_then(|_| at::<GRep12, XRep12>(s, a, b)).and_then(|_| at::<GRepCh, XRepCh>(s, a, b))
+        .and_then(|_| at::<GRepAsSkip, XRepAsSkip>(s, a, b)).and_then(|_| at::<GPushPop<'_>, XPushPop>(s, a, b)).and_then(|_| at::<GSlice<'_>, XSlice>(s, a, b)).and_then(|_| at::<GNest, XNest>(s, a, b)));
+    let _ = ok;
+}
 #[test] fn nb_peg_nest() { sweep("nb_peg_nest", &AB_, 8, |s| cmp::<GNest, XNest>(s)); }
 
 // ---- C17: repetition iterators yield the iterations in input order ------------------------------------------------
@@ -144,10 +169,11 @@ fn nb_determinism() {
             .and_then(|_| det_check::<GRepCh>(&s, &mut cases))
             .and_then(|_| det_check::<GPushPop<'_>>(&s, &mut cases))
             .and_then(|_| det_check::<GNest>(&s, &mut cases))
-            .and_then(|_| det_check::<GChoiceLit>(&s.replace(' ', "c"), &mut cases));
+            .and_then(|_| det_check::<GChoiceLit>(&s.replace(' ', "c"), &mut cases))
+            .and_then(|_| det_check::<Seq2<S0<pest_typed::predefined_node::unicode::LETTER>, S0<pest_typed::predefined_node::ASCII_HEX_DIGIT>>>(&s.replace(' ', "c"), &mut cases));
         if let Err(e) = r { println!("NB-RESULT name=nb_determinism status=fail cases={} key={}", cases, e); return; }
     }
-    println!("NB-RESULT name=nb_determinism status=ok cases={} key=- detail=5 grammars (one of choices over string literals) x all strings<=5 chars over {{a,b,space|c}} x all sub-ranges: repeated parse, clone, ==, hash, Debug", cases);
+    println!("NB-RESULT name=nb_determinism status=ok cases={} key=- detail=6 grammars (one of choices over string literals, one of a Unicode property node and a built-in choice) x all strings<=5 chars over {{a,b,space|c}} x all sub-ranges: repeated parse, clone, ==, hash, Debug", cases);
 }
 
 // ---- C17: the built-in choice rules report the alternative pest's definition gives ------------------------------------------------
@@ -184,7 +210,7 @@ fn nb_builtin_alternatives() {
 // ---- C17: leaf nodes expose the text they consumed ------------------------------------------------------------------
 #[test]
 fn nb_leaf_contents() {
-    let alpha = ["a", "B", "é", "λ", "中", "😀", "\r", "\n", "*", "/"];
+    let alpha = ["a", "B", "b", "é", "λ", "中", "😀", "\r", "\n", "*", "/"];
     let mut cases = 0u64;
     macro_rules! fail { ($s:expr, $($t:tt)*) => {{ println!("NB-RESULT name=nb_leaf_contents status=fail cases={} key=input={:?} detail={}", cases, $s, format!($($t)*)); return; }} }
     fn parse<'i, G: TypedNode<'i, Rule>>(s: &'i str) -> Option<(usize, G)> {
@@ -207,6 +233,12 @@ fn nb_leaf_contents() {
             (Some((o, n)), Some(c)) => if n.content != c || o != c.len_utf8() { fail!(s, "ANY content {:?}, consumed {:?}", n.content, c) },
             (None, None) => {}
             (r, _) => fail!(s, "ANY verdict {:?}", r.map(|x| x.0)),
+        }
+        // insensitive literal containing a multi-byte character: content = exactly the consumed text = a spelling of the literal
+        match (parse::<Insens<'_, LEB>>(&s), s.as_bytes().starts_with("é".as_bytes()) && s["é".len()..].chars().next().map_or(false, |c| c == 'b' || c == 'B')) {
+            (Some((o, n)), true) => if o != "éb".len() || n.content != &s[..o] { fail!(s, "Insens(\"éb\") content {:?}, consumed {:?}", n.content, &s[..o]) },
+            (None, false) => {}
+            (r, _) => fail!(s, "Insens(\"éb\") verdict {:?}", r.map(|x| x.0)),
         }
         // insensitive: the actual spelling
         if let Some((o, n)) = parse::<Insens<'_, LAB>>(&s) { if n.content != &s[..o] || !n.content.eq_ignore_ascii_case("ab") { fail!(s, "Insens content {:?}, consumed {:?}", n.content, &s[..o]) } }
